@@ -358,6 +358,62 @@ func runC03(env *Env) {
 		}
 		in.Close()
 	}
+	// two gateways that have both fired before are half full at the same time (two instances of one program, the
+	// arrivals of their second activations interleaved): each gateway keeps its own parked tokens
+	for rnd := 0; rnd < 3 && !rep.Saturated(); rnd++ {
+		cs := fmt.Sprintf("two instances of the N=2, M=1 loop program, second activations interleaved a1 b1 a2 b2 (round %d)", rnd)
+		env.Current(cs)
+		defs, err := ParseDefs(c03Prog(2, 1).XML(""))
+		must(err)
+		var ins [2]*Inst
+		for k := range ins {
+			ins[k], err = StartInst(defs, InstOpt{Vars: map[string]any{"again": false}})
+			must(err)
+		}
+		rep.Evaluations++
+		rep.Nontrivial++
+		rep.Count("two_gateways_half_full")
+		problem := ""
+		ans := func(k int, task string, opts ...bpmn.DoOption) {
+			if problem == "" && !ins[k].Answer(task, tmoStep, opts...) {
+				problem = fmt.Sprintf("instance %d: %s was not requested", k, task)
+			}
+		}
+		for k := range ins { // first activation, one instance after the other
+			ans(k, "T0")
+			ans(k, "T1")
+			ans(k, "U0")
+			ans(k, "L", bpmn.DoWithResults(map[string]any{"again": true}))
+		}
+		arrive := func(k int, task string, want int) {
+			ans(k, task)
+			if problem == "" && !ins[k].WaitUntil(tmoStep, func(l []Ev) bool { return countEv(l, "incoming", "G") >= want }) {
+				problem = fmt.Sprintf("instance %d: the arrival after %s was not processed by the gateway", k, task)
+			}
+		}
+		arrive(0, "T0", 3)
+		arrive(1, "T0", 3)
+		arrive(0, "T1", 4)
+		arrive(1, "T1", 4)
+		for k := range ins {
+			ans(k, "U0")
+			ans(k, "L", bpmn.DoWithResults(map[string]any{"again": false}))
+			if problem == "" && !ins[k].WaitCease(tmoStep) {
+				problem = fmt.Sprintf("instance %d did not complete", k)
+			}
+		}
+		for k := range ins {
+			if u := countEv(ins[k].Log(), "task", "U0"); problem == "" && u != 2 {
+				problem = fmt.Sprintf("instance %d: U0 requested %d times over two activations", k, u)
+			}
+		}
+		if problem != "" {
+			rep.Violate("C03-release", cs, problem+"; logs: "+logString(ins[0].Log())+" || "+logString(ins[1].Log()))
+		}
+		for k := range ins {
+			ins[k].Close()
+		}
+	}
 	// all N tokens arrive at the join at the same moment, at its very first activation (fork and join connected
 	// directly), many fresh instances in parallel: exactly one token per outgoing flow, N visits, completion
 	{
